@@ -1,8 +1,9 @@
 \* regression config: embedded_objects not reset by finally (must violate Reusable)
 SPECIFICATION Spec
 CONSTANTS
-  MaxProd = 2
+  MaxProd = 1
   MaxDepth = 6
+  OnlyKinds = {"instance"}
   IncludeGuard = TRUE
   NsNoneCheck = TRUE
   HexBounds = TRUE
